@@ -119,7 +119,7 @@ class Run:
         self.obls.append(o)
         return o
 
-    def identity(self, name, lhs, rhs, assumptions=(), replay=None, meta=None):
+    def identity(self, name, lhs, rhs, assumptions=(), replay=None, meta=None, extra_roots=()):
         """lhs =_F rhs for all values (Type I).  Handles Inv by cross
         multiplication (fractions); `assumptions` are extra SMT assertions."""
         ctx = lhs.ctx
@@ -128,7 +128,7 @@ class Run:
             a, b = ln * rd, rn * ld
         else:
             a, b = lhs, rhs
-        lines = smt.smt_defs([a, b])
+        lines = smt.smt_defs([a, b] + list(extra_roots))
         goal = f"(not (= (mod (- {smt.ref(a)} {smt.ref(b)}) {smt.R}) 0))"
         return self.obligation(name, lines, list(assumptions) + [goal], "unsat",
                                "identity", meta=meta, replay=replay)
